@@ -13,6 +13,13 @@ import (
 //
 // It returns the list of formulas whose conjunction must be unsatisfiable.
 func (e *Engine) prepareGoal(hyp, goal *Term) []*Term {
+	return e.prepareGoalMode(hyp, goal, false)
+}
+
+// prepareGoalMode with dropQ replaces each positive universally quantified
+// hypothesis by its instances only (a weakening of the hypotheses: "unsat"
+// is still a proof, "sat" only yields a candidate counterexample).
+func (e *Engine) prepareGoalMode(hyp, goal *Term, dropQ bool) []*Term {
 	c := e.C
 	var sks []*Term
 	var skolemize func(g *Term) *Term
@@ -51,8 +58,11 @@ func (e *Engine) prepareGoal(hyp, goal *Term) []*Term {
 		return g
 	}
 	g2 := skolemize(goal)
-	if len(sks) == 0 || len(sks) > 4 {
+	if (len(sks) == 0 || len(sks) > 4) && !dropQ {
 		return []*Term{c.And(hyp, c.Not(g2))}
+	}
+	if len(sks) > 4 {
+		sks = sks[:4]
 	}
 	var insts []*Term
 	for _, k := range sks {
@@ -95,10 +105,19 @@ func (e *Engine) prepareGoal(hyp, goal *Term) []*Term {
 		case "forall":
 			if pos && len(t.Bound) == 1 && t.Bound[0].Sort == Int {
 				parts := []*Term{t}
+				if dropQ {
+					parts = nil
+				}
 				for _, it := range insts {
 					parts = append(parts, c.Subst(t.Args[0], map[*Term]*Term{t.Bound[0]: it}))
 				}
 				r = c.And(parts...)
+			} else if pos && dropQ {
+				r = c.True()
+			}
+		case "exists":
+			if !pos && dropQ {
+				r = c.False()
 			}
 		}
 		memo[k] = r
